@@ -266,6 +266,10 @@ func checkC08(c *Ctx) {
 	c8PoolCtorsFresh(c, "R8.13")
 	c.Rule("R8.12", "the observer hands out a copy of its entries, or its array after giving it up - never a view of the array it goes on appending into (entries observed later would rewrite the ones already taken)", 2)
 	c8ObserverHandsOutOwnStorage(c, "R8.12")
+	if ce := c.Method(CorePath, "consoleEncoder", "EncodeEntry"); ce != nil {
+		c.Rule("R8.15", "the console encoder's context clone is recycled through the release function that resets it (reflection buffer and encoder included), after its bytes were copied: a clone put back as it is hands its reflection encoder to the next owner", 2)
+		c.As(map[string]string{"R16.2": "R8.15", "R16.3": "R8.15"}, func() { c16Grammar(c, ce) })
+	}
 	c.Rule("R8.10", "no Core keeps the caller's field slice: what Write (or With) records is a copy (the caller may reuse its slice for the next call, which would rewrite what was already recorded)", 2)
 	c8NoRetainedFields(c, "R8.10")
 	c.Rule("R8.4", "a buffer is released at most once: field cleared (or holder recycled) after Free; EncodeEntry's buffer freed exactly once after the write", 3)
